@@ -2,6 +2,8 @@
 C04 — helper lemmas for the bounded insertion of flat.Search (any linear order of distances).
 -/
 import SemaModel.C04.Model
+import SemaModel.C08.Lemmas
+import SemaModel.C19.Props
 import Mathlib.Data.List.Sort
 import Mathlib.Order.Defs.LinearOrder
 namespace Sema.C04
@@ -269,5 +271,408 @@ theorem IsKNN.group_unique {limit : Nat} {c₁ c₂ r₁ r₂ : List (Res D)} (h
   have s₂ : (r₂.filter fun c => decide (c.d = g)) <+~ (r₁.filter fun c => decide (c.d = g)) :=
     (h₂.subperm.filter _).trans ((hc.symm.filter _).trans p₁.symm).subperm
   exact s₂.perm_of_length_le (by omega)
+
+
+/-! ## the storage plans extracted from the source satisfy the write-back-cache laws -/
+
+section plans
+open Sema.C08 Sema.Gen Sema.Gen.FactsC04
+
+theorem le64_natLE8 (b0 b1 b2 b3 b4 b5 b6 b7 : Byte) :
+    le64 (BitVec.ofNat 64 (natLE [b0, b1, b2, b3, b4, b5, b6, b7])) = [b0, b1, b2, b3, b4, b5, b6, b7] := by
+  have h0 := b0.isLt; have h1 := b1.isLt; have h2 := b2.isLt; have h3 := b3.isLt
+  have h4 := b4.isLt; have h5 := b5.isLt; have h6 := b6.isLt; have h7 := b7.isLt
+  simp only [le64, natLE, List.cons.injEq, and_true]
+  refine ⟨?_, ?_, ?_, ?_, ?_, ?_, ?_, ?_⟩ <;>
+  · apply BitVec.eq_of_toNat_eq
+    rw [byteAt_toNat, BitVec.toNat_ofNat]
+    omega
+
+theorem len10 {α} (l : List α) (h : l.length = 10) : ∃ a0 a1 a2 a3 a4 a5 a6 a7 a8 a9, l = [a0,a1,a2,a3,a4,a5,a6,a7,a8,a9] := by
+  rcases l with _ | ⟨a0, l⟩ <;> try (simp at h)
+  rcases l with _ | ⟨a1, l⟩ <;> try (simp at h)
+  rcases l with _ | ⟨a2, l⟩ <;> try (simp at h)
+  rcases l with _ | ⟨a3, l⟩ <;> try (simp at h)
+  rcases l with _ | ⟨a4, l⟩ <;> try (simp at h)
+  rcases l with _ | ⟨a5, l⟩ <;> try (simp at h)
+  rcases l with _ | ⟨a6, l⟩ <;> try (simp at h)
+  rcases l with _ | ⟨a7, l⟩ <;> try (simp at h)
+  rcases l with _ | ⟨a8, l⟩ <;> try (simp at h)
+  rcases l with _ | ⟨a9, l⟩ <;> try (simp at h)
+  subst h
+  exact ⟨a0,a1,a2,a3,a4,a5,a6,a7,a8,a9, rfl⟩
+
+/-- a key recognised under suffix `s` is the node key of the recognised id -/
+theorem nodeIdFromKey_true (key : Bytes) (s : Byte) (id : Id) (h : Keys.NodeIdFromKey key s = (id, true)) :
+    key = Keys.NodeKey id s := by
+  rw [C19.nodeKey_eq]
+  unfold Keys.NodeIdFromKey at h
+  split at h
+  · cases h
+  · rename_i hc
+    simp only [Bool.or_eq_true, bne_iff_ne, ne_eq, not_or, Decidable.not_not] at hc
+    obtain ⟨⟨hl, h0⟩, h9⟩ := hc
+    obtain ⟨k0, b0, b1, b2, b3, b4, b5, b6, b7, k9, rfl⟩ := len10 key hl
+    simp [Go.idx, bget] at h0 h9
+    subst h0 h9
+    simp only [Prod.mk.injEq, and_true] at h
+    subst h
+    simp [Go.slice, Go.getLE64, ofLE64, le64_natLE8]
+
+theorem nodeKey_eq_iff (id id' : Id) (s s' : Byte) : nodeKey id s = nodeKey id' s' ↔ id = id' ∧ s = s' :=
+  C19.nodeKey_inj id id' s s'
+
+/-- the persisted form of a point: what `ReadFrom` returns after `WriteTo` -/
+def norm (p : Pt) : Pt := if p.code = [] then { vec := p.vec } else { code := p.code }
+
+def qKey (id : Id) : Bytes := nodeKey id 0x71#8
+def vKey (id : Id) : Bytes := nodeKey id 0x76#8
+
+/-- write precondition of the plain store and the graph node: there is no code -/
+def okPlain (_ : Id) (v : Pt) (_ : KV) : Prop := v.code = []
+/-- write precondition of the quantised stores: something is written, and a point without code is
+not shadowed by a stale code key -/
+def okQ (id : Id) (v : Pt) (kv : KV) : Prop :=
+  (v.code ≠ [] ∨ v.vec ≠ []) ∧ (v.code = [] → kv.get (qKey id) = none)
+
+theorem isEmpty_false_iff (b : Bytes) : (b.isEmpty = false) ↔ b ≠ [] := by
+  cases b <;> simp
+
+macro "plan_simp" "[" ts:Lean.Parser.Tactic.simpLemma,* "]" : tactic =>
+  `(tactic| simp [obs, storable, plainPoint, binaryQuantizedPoint, productQuantizedPoint, graphNode, writeSteps,
+      readSteps, deleteSteps, Pt.fld, Pt.setFld, Pt.guard, get_put, get_delete, nodeKey_eq_iff, norm, qKey, vKey, $ts,*])
+
+theorem laws_binary : Laws (storable binaryQuantizedPoint) norm okQ := by
+  refine ⟨?_, ?_, ?_, ?_, ?_, ?_, ?_, ?_, ?_, ?_, ?_⟩
+  · intro id v kv ⟨h1, h2⟩
+    by_cases hc : v.code = []
+    · have hv : v.vec ≠ [] := by simpa [hc] using h1
+      have h2' := h2 hc
+      simp [qKey] at h2'
+      plan_simp [hc, hv, h2']
+    · plan_simp [hc]
+  · intro id id' v kv h
+    by_cases hc : v.code = [] <;> by_cases hv : v.vec = [] <;> plan_simp [hc, hv, h]
+  · intro id kv
+    plan_simp []
+  · intro id id' kv h
+    plan_simp [h]
+  · intro id id' v v' kv h ⟨h1, h2⟩
+    refine ⟨h1, fun hc => ?_⟩
+    have := h2 hc
+    by_cases hc' : v.code = [] <;> by_cases hv : v.vec = [] <;> plan_simp [hc', hv, h] <;> simpa [qKey] using this
+  · intro id id' v' kv h ⟨h1, h2⟩
+    refine ⟨h1, fun hc => ?_⟩
+    have := h2 hc
+    plan_simp [h]; simpa [qKey] using this
+  · intro v
+    simp [storable, binaryQuantizedPoint, norm]
+  · intro id v kv h
+    simpa [storable, binaryQuantizedPoint, okQ] using h
+  · intro id kv v h
+    revert h
+    plan_simp []
+    cases kv.get (nodeKey id 0x71#8) <;> cases kv.get (nodeKey id 0x76#8) <;> simp <;> (intro h; subst h; rfl)
+  · intro v
+    simp [storable, binaryQuantizedPoint]
+  · intro id v kv ⟨h1, h2⟩
+    refine ⟨h1, fun hc => ?_⟩
+    have := h2 hc
+    by_cases hv : v.vec = [] <;> plan_simp [hc, hv] <;> simpa [qKey] using this
+
+/-- write precondition of the product store: as `okQ`, and a point without vector (one that was
+read back from a trained bucket) is only rewritten over its existing vector key -/
+def okP (id : Id) (v : Pt) (kv : KV) : Prop :=
+  okQ id v kv ∧ (v.vec = [] → (kv.get (vKey id)).isSome)
+
+theorem laws_product : Laws (storable productQuantizedPoint) norm okP := by
+  refine ⟨?_, ?_, ?_, ?_, ?_, ?_, ?_, ?_, ?_, ?_, ?_⟩
+  · intro id v kv ⟨⟨h1, h2⟩, _⟩
+    by_cases hc : v.code = []
+    · have hv : v.vec ≠ [] := by simpa [hc] using h1
+      have h2' := h2 hc
+      simp [qKey] at h2'
+      plan_simp [hc, hv, h2']
+    · by_cases hv : v.vec = [] <;> plan_simp [hc, hv]
+  · intro id id' v kv h
+    by_cases hc : v.code = [] <;> by_cases hv : v.vec = [] <;> plan_simp [hc, hv, h]
+  · intro id kv
+    plan_simp []
+  · intro id id' kv h
+    plan_simp [h]
+  · intro id id' v v' kv h ⟨⟨h1, h2⟩, h3⟩
+    refine ⟨⟨h1, fun hc => ?_⟩, fun hv' => ?_⟩
+    · have := h2 hc
+      by_cases hc' : v.code = [] <;> by_cases hv : v.vec = [] <;> plan_simp [hc', hv, h] <;> simpa [qKey] using this
+    · have := h3 hv'
+      by_cases hc' : v.code = [] <;> by_cases hv : v.vec = [] <;> plan_simp [hc', hv, h] <;> simpa [vKey] using this
+  · intro id id' v' kv h ⟨⟨h1, h2⟩, h3⟩
+    refine ⟨⟨h1, fun hc => ?_⟩, fun hv' => ?_⟩
+    · have := h2 hc
+      plan_simp [h]; simpa [qKey] using this
+    · have := h3 hv'
+      plan_simp [h]; simpa [vKey] using this
+  · intro v
+    simp [storable, productQuantizedPoint, norm]
+  · intro id v kv h
+    simpa [storable, productQuantizedPoint, okP, okQ] using h
+  · intro id kv v h
+    revert h
+    plan_simp []
+    cases kv.get (nodeKey id 0x71#8) <;> cases kv.get (nodeKey id 0x76#8) <;> simp <;> (intro h; subst h; rfl)
+  · intro v
+    simp [storable, productQuantizedPoint]
+  · intro id v kv ⟨⟨h1, h2⟩, h3⟩
+    refine ⟨⟨h1, fun hc => ?_⟩, fun hv' => ?_⟩
+    · have := h2 hc
+      by_cases hv : v.vec = [] <;> plan_simp [hc, hv] <;> simpa [qKey] using this
+    · have := h3 hv'
+      by_cases hc : v.code = [] <;> plan_simp [hc, hv'] <;> simpa [vKey] using this
+
+theorem laws_plain : Laws (storable plainPoint) norm okPlain := by
+  refine ⟨?_, ?_, ?_, ?_, ?_, ?_, ?_, ?_, ?_, ?_, ?_⟩
+  · intro id v kv h
+    simp only [okPlain] at h
+    plan_simp [h]
+  · intro id id' v kv h
+    plan_simp [h]
+  · intro id kv
+    plan_simp []
+  · intro id id' kv h
+    plan_simp [h]
+  · intro id id' v v' kv _ h; exact h
+  · intro id id' v' kv _ h; exact h
+  · intro v
+    simp [storable, plainPoint]
+  · intro id v kv h
+    simpa [storable, plainPoint, okPlain] using h
+  · intro id kv v h
+    simp [storable, plainPoint]
+  · intro v
+    simp [storable, plainPoint]
+  · intro id v kv h; exact h
+
+theorem laws_graphNode : Laws (storable graphNode) norm okPlain := by
+  refine ⟨?_, ?_, ?_, ?_, ?_, ?_, ?_, ?_, ?_, ?_, ?_⟩
+  · intro id v kv h
+    simp only [okPlain] at h
+    plan_simp [h]
+  · intro id id' v kv h
+    plan_simp [h]
+  · intro id kv
+    plan_simp []
+  · intro id id' kv h
+    plan_simp [h]
+  · intro id id' v v' kv _ h; exact h
+  · intro id id' v' kv _ h; exact h
+  · intro v
+    simp [storable, graphNode, norm]
+  · intro id v kv h
+    simpa [storable, graphNode, okPlain] using h
+  · intro id kv v h
+    revert h
+    plan_simp []
+    cases kv.get (nodeKey id 0x65#8) <;> simp <;> (intro h; subst h; rfl)
+  · intro v
+    simp [storable, graphNode]
+  · intro id v kv h; exact h
+
+/-! ### enumeration by key suffix -/
+
+theorem nodeIdFromKey_nodeKey (id : Id) (s s' : Byte) :
+    (Keys.NodeIdFromKey (Keys.NodeKey id s) s').2 = decide (s = s') ∧
+    (s = s' → (Keys.NodeIdFromKey (Keys.NodeKey id s) s').1 = id) := by
+  by_cases h : s = s'
+  · subst h; simp [C19.nodeKey_roundtrip]
+  · simp [C19.nodeKey_suffix_sep id s s' h, h]
+
+theorem idFromKeySteps_nodeKey (id : Id) (s : Byte) (ids : List Byte) :
+    idFromKeySteps (nodeKey id s) ids = if s ∈ ids then some id else none := by
+  induction ids with
+  | nil => simp [idFromKeySteps]
+  | cons s' rest ih =>
+    obtain ⟨h1, h2⟩ := nodeIdFromKey_nodeKey id s s'
+    unfold idFromKeySteps
+    simp only [nodeKey] at ih ⊢
+    by_cases h : s = s'
+    · subst h; simp [h1, h2 rfl]
+    · have h' : ¬ s' = s := fun x => h x.symm
+      simp [h1, h, ih, List.mem_cons]
+
+theorem idFromKeySteps_some (key : Bytes) (ids : List Byte) (id : Id) (h : idFromKeySteps key ids = some id) :
+    ∃ s, s ∈ ids ∧ key = nodeKey id s := by
+  induction ids with
+  | nil => simp [idFromKeySteps] at h
+  | cons s rest ih =>
+    unfold idFromKeySteps at h
+    cases hr : (Keys.NodeIdFromKey key s).2
+    · simp [hr] at h
+      obtain ⟨s', hs, hk⟩ := ih h
+      exact ⟨s', List.mem_cons_of_mem _ hs, hk⟩
+    · simp [hr] at h
+      refine ⟨s, List.mem_cons_self, nodeIdFromKey_true key s id ?_⟩
+      rw [← h, ← hr]
+
+/-- well-formed bucket of the product store: a code key never stands without its vector key -/
+def wfProduct (kv : KV) : Prop := ∀ id, (kv.get (qKey id)).isSome → (kv.get (vKey id)).isSome
+
+theorem getD_isSome (kv : KV) (key : Bytes) : key ∈ keys kv ↔ (kv.get key).isSome := (get_isSome_iff kv key).symm
+
+theorem enum_plain : EnumLaws (storable plainPoint) (fun _ => True) := by
+  constructor
+  · intro kv id _ h
+    refine ⟨nodeKey id 0x76#8, ?_, by simp [storable, plainPoint, idFromKeySteps_nodeKey]⟩
+    rw [getD_isSome]
+    revert h
+    plan_simp []
+    cases kv.get (nodeKey id 0x76#8) <;> simp
+  · intro kv key id _ hk hid
+    obtain ⟨s, hs, rfl⟩ := idFromKeySteps_some key _ id hid
+    rw [getD_isSome] at hk
+    simp [storable, plainPoint] at hs
+    subst hs
+    revert hk
+    plan_simp []
+    cases kv.get (nodeKey id 0x76#8) <;> simp
+
+theorem enum_graphNode : EnumLaws (storable graphNode) (fun _ => True) := by
+  constructor
+  · intro kv id _ h
+    refine ⟨nodeKey id 0x65#8, ?_, by simp [storable, graphNode, idFromKeySteps_nodeKey]⟩
+    rw [getD_isSome]
+    revert h
+    plan_simp []
+    cases kv.get (nodeKey id 0x65#8) <;> simp
+  · intro kv key id _ hk hid
+    obtain ⟨s, hs, rfl⟩ := idFromKeySteps_some key _ id hid
+    rw [getD_isSome] at hk
+    simp [storable, graphNode] at hs
+    subst hs
+    revert hk
+    plan_simp []
+    cases kv.get (nodeKey id 0x65#8) <;> simp
+
+theorem enum_product : EnumLaws (storable productQuantizedPoint) wfProduct := by
+  constructor
+  · intro kv id hwf h
+    refine ⟨nodeKey id 0x76#8, ?_, by simp [storable, productQuantizedPoint, idFromKeySteps_nodeKey]⟩
+    rw [getD_isSome]
+    have hq := hwf id
+    revert h hq
+    plan_simp []
+    cases kv.get (nodeKey id 0x71#8) <;> cases kv.get (nodeKey id 0x76#8) <;> simp
+  · intro kv key id _ hk hid
+    obtain ⟨s, hs, rfl⟩ := idFromKeySteps_some key _ id hid
+    rw [getD_isSome] at hk
+    simp [storable, productQuantizedPoint] at hs
+    subst hs
+    revert hk
+    plan_simp []
+    cases kv.get (nodeKey id 0x71#8) <;> cases kv.get (nodeKey id 0x76#8) <;> simp
+
+/-- the obligation that is false on the pinned tree: every binary-store item that can be read can
+be enumerated -/
+theorem enum_binary : EnumLaws (storable binaryQuantizedPoint) (fun _ => True) := by
+  constructor
+  · intro kv id _ h
+    by_cases hq : (kv.get (nodeKey id 0x71#8)).isSome
+    · exact ⟨nodeKey id 0x71#8, (getD_isSome _ _).2 hq, by simp [storable, binaryQuantizedPoint, idFromKeySteps_nodeKey]⟩
+    · refine ⟨nodeKey id 0x76#8, ?_, by simp [storable, binaryQuantizedPoint, idFromKeySteps_nodeKey]⟩
+      rw [getD_isSome]
+      revert h hq
+      plan_simp []
+      cases kv.get (nodeKey id 0x71#8) <;> cases kv.get (nodeKey id 0x76#8) <;> simp
+  · intro kv key id _ hk hid
+    obtain ⟨s, hs, rfl⟩ := idFromKeySteps_some key _ id hid
+    rw [getD_isSome] at hk
+    simp [storable, binaryQuantizedPoint] at hs
+    rcases hs with rfl | rfl <;>
+    · revert hk
+      plan_simp []
+      cases kv.get (nodeKey id 0x71#8) <;> cases kv.get (nodeKey id 0x76#8) <;> simp
+
+
+/-! ### bucket invariants and parameter keys -/
+
+theorem wf_trivial (pl : Plan) (ok : Id → Pt → KV → Prop) : WfLaws (storable pl) ok (fun _ => True) :=
+  ⟨fun _ _ _ _ _ => trivial, fun _ _ _ => trivial⟩
+
+theorem wf_product : WfLaws (storable productQuantizedPoint) okP wfProduct := by
+  constructor
+  · intro id v kv ⟨⟨h1, _⟩, h3⟩ hwf id'
+    have := hwf id'
+    by_cases hid : id' = id
+    · subst hid
+      by_cases hc : v.code = [] <;> by_cases hv : v.vec = []
+      · simp [hc, hv] at h1
+      · plan_simp [hc, hv, wfProduct]
+      · have := h3 hv
+        revert this
+        plan_simp [hc, hv]
+      · plan_simp [hc, hv]
+    · revert this
+      by_cases hc : v.code = [] <;> by_cases hv : v.vec = [] <;> plan_simp [hc, hv, hid]
+  · intro id kv hwf id'
+    have := hwf id'
+    revert this
+    by_cases hid : id' = id
+    · subst hid; plan_simp []
+    · plan_simp [hid]
+
+/-- a key that is not a node key (e.g. a parameter key) is invisible to the point plans -/
+theorem readSteps_put_other (id : Id) (kv : KV) (pk x : Bytes) (hpk : ∀ id s, nodeKey id s ≠ pk)
+    (rs : List RStep) (p : Pt) : readSteps id (kv.put pk x) rs p = readSteps id kv rs p := by
+  induction rs generalizing p with
+  | nil => rfl
+  | cons r rest ih =>
+    simp only [readSteps, get_put, hpk id r.suffix, if_false, ih]
+
+theorem writeSteps_get_other (id : Id) (p : Pt) (ws : List WStep) (kv : KV) (pk : Bytes)
+    (hpk : ∀ id s, nodeKey id s ≠ pk) : (writeSteps id p ws kv).get pk = kv.get pk := by
+  induction ws generalizing kv with
+  | nil => rfl
+  | cons w rest ih =>
+    have hne : ¬ pk = nodeKey id w.suffix := fun h => hpk id w.suffix h.symm
+    unfold writeSteps
+    split
+    · split
+      · simp [get_put, hne]
+      · rw [ih]; simp [get_put, hne]
+    · exact ih kv
+
+theorem deleteSteps_get_other (id : Id) (ss : List Byte) (kv : KV) (pk : Bytes)
+    (hpk : ∀ id s, nodeKey id s ≠ pk) : (deleteSteps id ss kv).get pk = kv.get pk := by
+  induction ss generalizing kv with
+  | nil => rfl
+  | cons s rest ih =>
+    have hne : ¬ pk = nodeKey id s := fun h => hpk id s h.symm
+    simp only [deleteSteps]
+    rw [ih]; simp [get_delete, hne]
+
+theorem nodeKey_length (id : Id) (s : Byte) : (nodeKey id s).length = 10 := by
+  simp [nodeKey, C19.nodeKey_eq, le64]
+
+theorem nodeKey_ne_of_length (pk : Bytes) (h : pk.length ≠ 10) : ∀ id s, nodeKey id s ≠ pk := by
+  intro id s he
+  exact h (by rw [← he, nodeKey_length])
+
+theorem thresholdKey_ne : ∀ id s, nodeKey id s ≠ thresholdKey :=
+  nodeKey_ne_of_length _ (by simp [thresholdKey, centroidDistsKey, flatCentroidsKey, binaryThresholdKeyBytes, productCentroidDistsKeyBytes, productFlatCentroidsKeyBytes])
+theorem centroidDistsKey_ne : ∀ id s, nodeKey id s ≠ centroidDistsKey :=
+  nodeKey_ne_of_length _ (by simp [thresholdKey, centroidDistsKey, flatCentroidsKey, binaryThresholdKeyBytes, productCentroidDistsKeyBytes, productFlatCentroidsKeyBytes])
+theorem flatCentroidsKey_ne : ∀ id s, nodeKey id s ≠ flatCentroidsKey :=
+  nodeKey_ne_of_length _ (by simp [thresholdKey, centroidDistsKey, flatCentroidsKey, binaryThresholdKeyBytes, productCentroidDistsKeyBytes, productFlatCentroidsKeyBytes])
+
+/-- `Flush` of the item cache leaves every non-node key of the bucket alone -/
+theorem flush_get_other (pl : Plan) {ok : Id → Pt → KV → Prop} (L : Laws (storable pl) norm ok)
+    {c : Cache Id Pt} {kv : KV} (h : Tracked (storable pl) norm ok c kv) (pk : Bytes)
+    (hpk : ∀ id s, nodeKey id s ≠ pk) : (C08.flush (storable pl) c kv).2.get pk = kv.get pk := by
+  have := flush_preserves L (fun kv' => kv'.get pk = kv.get pk)
+    (fun id v kv' _ hI => by simp only [storable]; rw [writeSteps_get_other id v _ kv' pk hpk]; exact hI)
+    (fun id kv' hI => by simp only [storable]; rw [deleteSteps_get_other id _ kv' pk hpk]; exact hI)
+    c.items [] kv h.nodup (fun id e hm hd hw => h.dirty id e (find_of_mem h.nodup hm) hd hw) rfl
+  simpa [C08.flush] using this
+
+end plans
 
 end Sema.C04
